@@ -6350,6 +6350,15 @@ isoent_gen_iso9660_identifier(struct archive_write *a, struct isoent *isoent,
 				noff = ext_off - 1;
 			else
 				noff = ext_off;
+			if (noff < 0) {
+				/* The name in front of the extension is too
+				 * short to take the number: treat the whole
+				 * identifier as the name, the number
+				 * replaces its end. */
+				noff += l - ext_off;
+				np->ext_off = l;
+				np->ext_len = 0;
+			}
 		}
 		/* Register entry to the identifier resolver. */
 		idr_register(idr, np, weight, noff);
@@ -6497,6 +6506,14 @@ isoent_gen_joliet_identifier(struct archive_write *a, struct isoent *isoent,
 			noff = ext_off - 2;
 		else
 			noff = ext_off;
+		if (noff < 0) {
+			/* The name in front of the extension is too short
+			 * to take the number: treat the whole identifier
+			 * as the name, the number replaces its end. */
+			noff += (int)l - ext_off;
+			np->ext_off = (int)l;
+			np->ext_len = 0;
+		}
 		/* Register entry to the identifier resolver. */
 		idr_register(idr, np, weight, noff);
 	}
